@@ -35,6 +35,8 @@ type Driver struct {
 	listenCB func([]byte)
 	signal   chan any
 	done     chan any
+	inflight sync.RWMutex
+	closed   bool
 }
 
 var _ uhppote.Driver = (*Driver)(nil)
@@ -140,10 +142,15 @@ func (d *Driver) Listen(signal chan any, done chan any, callback func([]byte)) e
 	d.listenCB = callback
 	d.signal = signal
 	d.done = done
+	d.closed = false
 	d.mu.Unlock()
 	go func() {
 		<-signal
+		// like the real driver: 'done' is closed only after the read loop has left the callback
+		d.inflight.Lock()
 		close(done)
+		d.closed = true
+		d.inflight.Unlock()
 	}()
 	return nil
 }
@@ -156,6 +163,11 @@ func (d *Driver) Push(datagram []byte) {
 	d.mu.Unlock()
 	if cb == nil {
 		panic("memdrv: Push without Listen")
+	}
+	d.inflight.RLock()
+	defer d.inflight.RUnlock()
+	if d.closed {
+		return // the listener has been stopped: the datagram is never read
 	}
 	n := copy(listenBuf, datagram)
 	cb(listenBuf[:n])
